@@ -11,7 +11,7 @@ import_ckl()
 from ckl.interpreter import Interpreter  # noqa: E402
 from ckl.errors import CklRuntimeError, CklSyntaxError  # noqa: E402
 
-PRELUDE = "def LOG = []; def log(v) do append(LOG, v); v end; require IO import [str_input]; "
+PRELUDE = "def LOG = []; def log(v) do append(LOG, v); v end; require IO import [str_input, process_lines]; "
 
 
 # ------------------------------------------------------------------ values
@@ -70,7 +70,7 @@ def norm(p):
 
 # ------------------------------------------------------------------ rendering
 SIMPLE = {"lit", "var", "call", "list", "set", "map", "obj", "method", "member", "compr", "compr2", "log", "index",
-          "input", "evalstr"}
+          "input", "evalstr", "each"}
 
 
 def paren(s):
@@ -233,6 +233,10 @@ def src(n):
         c = a[0]
         base = src(c) if c["n"] in ("var", "call", "index", "member", "list") else paren(src(c))
         return f"{base}[{expr(a[1])}]"
+    if t == "each":           # a native that calls the function once per element
+        if n["s"] == "lines":
+            return f"process_lines({expr(a[0])}, {expr(a[1])})"
+        return f"find({expr(a[0])}, 'zz', key = {expr(a[1])})"
     if t == "input":          # the lines of the list literal as one text
         lines = ["".join(chr(c) for c in it["a"][0]["v"]["s"]) for it in a[0]["a"]]
         return "str_input(" + absval.quote("\n".join(lines)) + ")"
